@@ -680,9 +680,11 @@ ldb_remove_obsolete_files(ldb_t *db) {
                   (number == db->versions->prev_log_number));
           break;
         case LDB_FILE_DESC:
-          /* Keep my manifest file, and any newer incarnations'
-             (in case there is a race that allows other incarnations). */
-          keep = (number >= db->versions->manifest_file_number);
+          /* Keep my manifest file only. A newer one is the leftover of
+             a roll-over that was interrupted before CURRENT was switched
+             (other incarnations are excluded by the LOCK file); when the
+             old MANIFEST is reused, nothing else would ever remove it. */
+          keep = (number == db->versions->manifest_file_number);
           break;
         case LDB_FILE_TABLE:
           keep = rb_set64_has(&live, number);
